@@ -6,6 +6,11 @@
 set -u
 id=$1; src=$2; shift 2; props="$@"
 export GOFLAGS=-mod=mod GOPROXY=off
+# Every scratch worktree has its own path, so its build output is never reused: a cache of its own,
+# emptied when it grows (the shared cache once filled the disk with 135 GB).
+export GOCACHE=${MUT_GOCACHE:-/tmp/gocache-mut}
+mkdir -p $GOCACHE
+if [ "$(du -sm $GOCACHE 2>/dev/null | cut -f1)" -gt 12000 ]; then go clean -cache; fi
 dst=/verif/seeded/$id; mkdir -p $dst
 [ "$(readlink -f $src)" != "$(readlink -f $dst)" ] && { cp $src/patch.diff $src/meta.json $dst/ 2>/dev/null; cp $src/seeded_demo_test.go $dst/seeded_demo_test.go.txt 2>/dev/null; }
 echo "$props" > $dst/props.txt
